@@ -206,27 +206,28 @@ var workers = map[int]*pow.Worker{}
 
 // cancelled calls: whatever Mine returns without error must still meet the target
 type cancelCase struct {
-	Data    h.B `json:"data"`
-	Workers int `json:"workers"`
-	K       int `json:"k"`        // target 3^k/len, k large enough not to be found at once
-	DelayUs int `json:"delay_us"` // -1 = cancelled before the call
+	Data    h.B    `json:"data"`
+	Workers int    `json:"workers"`
+	K       int    `json:"k"`              // target 3^k/len, k large enough not to be found at once
+	DelayUs int    `json:"delay_us"`       // -1 = cancelled before the call
+	Mode    string `json:"mode,omitempty"` // how the context ends: see h.ContextFor
 }
 
 func TestMineCancelled(t *testing.T) {
 	h.Run(t, h.Sub[cancelCase]{
 		Prop: "C11", Name: "mine-cancelled", N: 160,
 		Gen: func(t *rapid.T) cancelCase {
-			return cancelCase{Data: h.Bytes(t, "data", 0, 40), Workers: h.OneOf(t, "workers", 1, 2, 4, 8), K: rapid.IntRange(12, 40).Draw(t, "k"), DelayUs: rapid.IntRange(-1, 3000).Draw(t, "delay")}
+			return cancelCase{Data: h.Bytes(t, "data", 0, 40), Workers: h.OneOf(t, "workers", 1, 2, 4, 8), K: rapid.IntRange(12, 40).Draw(t, "k"), DelayUs: rapid.IntRange(-1, 3000).Draw(t, "delay"), Mode: h.OneOf(t, "ctxmode", "", "", "deadline", "deadline", "cause", "custom")}
 		},
 		Check: func(c cancelCase) (h.Info, error) {
 			target := math.Pow(3, float64(c.K)) / float64(len(c.Data)+8)
-			ctx, cancel := context.WithCancel(context.Background())
+			ctx, end, release := h.ContextFor(c.Mode, c.DelayUs)
 			if c.DelayUs < 0 {
-				cancel()
+				end()
 			} else {
-				go func() { time.Sleep(time.Duration(c.DelayUs) * time.Microsecond); cancel() }()
+				go func() { time.Sleep(time.Duration(c.DelayUs) * time.Microsecond); end() }()
 			}
-			defer cancel()
+			defer release()
 			w, ok := workers[c.Workers]
 			if !ok {
 				w = pow.New(c.Workers)
